@@ -319,7 +319,18 @@ def run(ctx: Ctx) -> None:
     ctx.rule("R20.5", "nondefault_repr: container kinds covered; a field is skipped only for repr/compare off or value == declared default; qualified class name", minimum=4)
     gt = repo.mod("gentest")
     nr = gt.func("nondefault_repr")
-    inner = gt.func("nondefault_repr._inner_repr")
+    # the function that does the work: the one (nested, module-level, or nondefault_repr itself) that walks the dataclass fields
+    cands = [x for x in ast.walk(nr) if isinstance(x, ast.FunctionDef)]
+    for c_ in ast.walk(nr):
+        if isinstance(c_, ast.Call) and isinstance(c_.func, ast.Name) and gt.has_func(c_.func.id):
+            cands.append(gt.func(c_.func.id))
+    def own_nodes(f):
+        return [x for x in walk_local(f)]
+    walkers = [f for f in cands if any(isinstance(x, ast.Attribute) and x.attr in ("repr", "compare") for x in own_nodes(f)) and any(isinstance(x, ast.For) for x in own_nodes(f))]
+    walkers = list({id(f): f for f in walkers}.values())
+    if len(walkers) != 1:
+        raise AnalysisError("anchor vanished: the function of gentest that walks the dataclass fields for nondefault_repr")
+    inner = walkers[0]
     # container kinds in the closure of ParsedData
     kinds: Set[str] = set()
     seen: Set[str] = set()
@@ -385,7 +396,7 @@ def run(ctx: Ctx) -> None:
         ok = not extra and not missing
         why = f"a field is emitted under {sorted(deps)}; required exactly {sorted(want)}"
     ctx.ob("R20.5", "gentest:nondefault_repr|skip conditions", ok, msg=why + ": a field whose value differs from its declared default would be omitted (or a default one printed), so the repr no longer reconstructs an equal object", node=inner, mod=gt)
-    wtxt = norm(nr).replace("dataclasses.MISSING", "MISSING")
+    wtxt = (norm(nr) + "\n" + norm(inner)).replace("dataclasses.MISSING", "MISSING")
     plain_default = wtxt.replace("f.default_factory", "")
     ok = "f.default_factory is not MISSING" in wtxt and "f.default_factory()" in wtxt and "f.default" in plain_default
     ctx.ob("R20.5", "gentest:nondefault_repr|declared default is factory-aware", ok, msg="the declared default is not taken from default_factory() when one exists", node=inner, mod=gt, nontrivial=False)
